@@ -14,8 +14,13 @@
 (*     different data, be silently missing, or panic.                                 *)
 EXTENDS Integers, Sequences, FiniteSets, TLC
 Feats == {"default", "no64bit", "noflex", "nocsum", "nodirindex", "nohuge", "ss2", "nojournal",
-          "minimal", "metabg", "ext3", "ext2", "inline"}
-Trees == {"small", "htree", "frag", "sparse", "links", "xattr", "attrs"}
+          "minimal", "metabg", "ext3", "ext2", "inline",
+          "contig"}     \* sparse_super2 without a journal: nothing interrupts the data area (longest contiguous runs)
+\* huge: one 100 MiB file (more than 65536 blocks of 1 KiB; extents of the maximal length 32768 that follow
+\* one another on disk) in a 160 MiB image
+Trees == {"small", "htree", "frag", "sparse", "links", "xattr", "attrs", "huge"}
+\* always part of the enumeration, whatever the deviation bound: the huge file on the most contiguous layout
+Always(t) == t.tree = "huge" /\ t.feat = "contig" /\ t.isz = "256"
 Dims  == [blk : {"1024", "2048", "4096"}, isz : {"128", "256"}, feat : Feats, tree : Trees]
 Base  == [blk |-> "4096", isz |-> "256", feat |-> "default", tree |-> "small"]
 Dev(r, base) == Cardinality({f \in DOMAIN base : r[f] # base[f]})
